@@ -292,6 +292,9 @@ fn run(ctx: &mut Ctx) {
         count_pool(c, st);
         case_fn(s, c, st)
     });
+    let total_cf = ctx.tier.pick(40_000, 800_000);
+    let strat_cf = move || class_family_strategy(true, fix);
+    ctx.generated("class-family", &strat_cf, total_cf, &|s, c, st| case_fn(s, c, st));
     let total_wide = ctx.tier.pick(60_000, 1_500_000);
     let strat_wide = move || wide_short_strategy(fix, true);
     ctx.generated("wide-short", &strat_wide, total_wide, &|s, c, st| case_fn(s, c, st));
